@@ -1,11 +1,11 @@
 """C04 -- the parse result is independent of input chunking, buffer alignment and source type (pure differential / metamorphic)."""
-import base64, json, os
+import base64, glob, json, os, re, shutil, subprocess, tempfile
 from hypothesis import strategies as st
 import xv, xmlmodel as xm, wfmut
 from driver import hyp_run, PropertyFailure
 
 ID = 'C04'
-HARNESS = {'asan': ['xvexec']}
+HARNESS = {'asan': ['xvexec', 'fz_chunk']}
 RULE = ('lane A (partitions): M1 documents and their C02 mutants, in UTF-8/UTF-16 with optional padding that pushes them across the 16K-char / 48K-byte '
         'buffers, read through a stream that follows a drawn read plan (1,2,3,4,5,7,4095,4096,16383,16384,49151,49152,... bytes per read): the full '
         'canonical event dump incl. error codes, lines and columns must equal the one-shot MemBufInputSource parse. lane B (alignment sweep): each '
@@ -14,7 +14,9 @@ RULE = ('lane A (partitions): M1 documents and their C02 mutants, in UTF-8/UTF-1
         'char-buffer (n*16384 chars) and raw-buffer (49152 bytes) boundary B: dump must equal the dump with a 10-char filler (filler line substituted). '
         'lane C (source type): same bytes through custom InputSource / MemBuf / LocalFile / file: URL / stdin. non-trivial: A = plan makes >=2 reads of '
         'which one ends inside a multi-byte character or a markup token; B = K starts within the window of a boundary (every sweep point); C = source '
-        'differs from memory. distinct by sha1(bytes, plan|offset|source, config).')
+        'differs from memory. lane D (coverage-guided, harness/fz_chunk): libFuzzer mutates (document bytes, read plan, padding class, API, scanner) from the committed '
+        'parse corpus; the in-target oracle compares the dump of the planned stream with the one-shot dump of the same bytes -- this lane reaches documents that are '
+        'malformed and mis-encoded at the same time, which the model-driven lanes do not build. distinct by sha1(bytes, plan|offset|source, config); lane D counts executions.')
 ASSUMPTIONS = ['the reference for every variant is the one-shot in-memory parse of the same bytes in the same process build',
                'known finding C04-short-first-read is excluded by construction (first read covers the XML declaration)',
                'known finding C04-transcoding-error-position: when the first fatal error is a transcoding exception, only verdict, code and the prefix relation of events are compared',
@@ -227,6 +229,63 @@ def straddles(data, plan, first):
             if lo.rfind(b'<') > lo.rfind(b'>') or lo.rfind(b'&') > lo.rfind(b';') or lo.endswith((b']', b'-', b'?', b'\r')): return True
     return False
 
+# ---- lane D: coverage-guided differential fuzzing (harness/fz_chunk.cpp holds the oracle) ----
+FUZZ_RUNS = {'quick': 1200, 'thorough': 60000}
+FUZZ_SAFETY_S = {'quick': 200, 'thorough': 2400}
+def fuzz_env():
+    env = dict(os.environ); env.update(xv.ASAN_ENV)
+    env['ASAN_OPTIONS'] = 'detect_leaks=0:abort_on_error=0:allocator_may_return_null=1:symbolize=1:handle_segv=1:detect_stack_use_after_return=0'
+    return env
+
+def fuzz_replay(data):
+    d = tempfile.mkdtemp(prefix='verif.c04.')
+    try:
+        f = os.path.join(d, 'in'); open(f, 'wb').write(data)
+        try: p = subprocess.run([xv.harness_path('fz_chunk'), '-timeout=120', '-rss_limit_mb=8000', '-artifact_prefix=' + d + '/', f], stdout=subprocess.DEVNULL, stderr=subprocess.PIPE, env=fuzz_env(), timeout=300)
+        except subprocess.TimeoutExpired: return None, 'replay timeout'
+        if p.returncode == 0: return True, 'ok'
+        txt = p.stderr.decode('utf-8', 'replace')
+        m = re.search(r'==XV-ORACLE==[^\n]*\n(?:[^\n]*\n){0,3}', txt)
+        if m: return False, m.group(0)
+        if 'ERROR: libFuzzer: timeout' in txt or 'out-of-memory' in txt: return None, 'timeout/oom'
+        return False, 'sanitizer report in the differential target (C01 owns memory safety, reported here because both parses see the same bytes):\n' + txt[-2500:]
+    finally: shutil.rmtree(d, ignore_errors=True)
+
+def lane_fuzz(ctx):
+    S = ctx.stats
+    base = tempfile.mkdtemp(prefix='verif.c04.')
+    try:
+        corpus = os.path.join(base, 'c'); art = os.path.join(base, 'a'); os.makedirs(corpus); os.makedirs(art)
+        src = sorted(glob.glob(os.path.join(xv.VERIF, 'corpus', 'fz_parse', '*')))
+        for i, f in enumerate(src):
+            if i % max(1, ctx.nworkers) == ctx.worker % max(1, ctx.nworkers) or i % 5 == 0: shutil.copy(f, corpus)
+        runs = FUZZ_RUNS[ctx.tier]; execs = 0; rounds = 0
+        while execs < runs and rounds < 4:
+            args = [xv.harness_path('fz_chunk'), corpus, '-runs=%d' % (runs - execs), '-max_total_time=%d' % FUZZ_SAFETY_S[ctx.tier], '-seed=%d' % (ctx.seed * 1000 + ctx.worker + 1 + rounds * 7919),
+                    '-timeout=60', '-rss_limit_mb=6000', '-max_len=4096', '-artifact_prefix=' + art + '/', '-print_final_stats=1', '-reload=0', '-dict=' + os.path.join(xv.VERIF, 'dict', 'xml.dict')]
+            try: p = subprocess.run(args, stdout=subprocess.DEVNULL, stderr=subprocess.PIPE, env=fuzz_env(), timeout=FUZZ_SAFETY_S[ctx.tier] + 300)
+            except subprocess.TimeoutExpired: S.inconclusive += 1; break
+            rounds += 1
+            m = re.findall(rb'stat::number_of_executed_units:\s+(\d+)', p.stderr) or re.findall(rb'^#(\d+)\s', p.stderr, re.M)
+            if m: execs += int(m[-1])
+            if p.returncode == 0: break
+        S.evaluations += execs; S.labels['laneD:execs'] += execs; S.labels['laneD:restarts_after_finding'] += max(0, rounds - 1)
+        if execs < runs: S.labels['laneD:short-of-run-count'] += 1
+        n = len(glob.glob(os.path.join(corpus, '*')))
+        S.labels['laneD:corpus'] += n
+        for f in sorted(glob.glob(os.path.join(corpus, '*')))[-400:]: S.nontrivial.add('D:' + os.path.basename(f)[:16])
+        seen = set()
+        for a in sorted(glob.glob(os.path.join(art, '*'))):
+            kind = os.path.basename(a).split('-')[0]; data = open(a, 'rb').read()
+            if kind != 'crash': S.inconclusive += 1; S.labels['laneD:artifact:' + kind] += 1; continue
+            ok, detail = fuzz_replay(data)
+            if ok is None or ok: S.inconclusive += 1; S.labels['laneD:artifact-not-reproduced'] += 1; continue
+            sig = ' '.join(detail.split('\n')[2:4])[:160]
+            if sig in seen: continue
+            seen.add(sig)
+            S.failures.append({'case': {'lane': 'D', 'input_b64': base64.b64encode(data).decode()}, 'detail': 'libFuzzer artefact (%d bytes): %s' % (len(data), detail)})
+    finally: shutil.rmtree(base, ignore_errors=True)
+
 def worker(ctx):
     ex = ctx.executor('xvexec')
     S = ctx.stats
@@ -280,8 +339,12 @@ def worker(ctx):
         ok, detail = run_case(case, ex)
         if not ok: raise PropertyFailure(case, detail)
     hyp_run(ctx, st.tuples(doc_strategy(), st.sampled_from(['custom', 'file', 'url', 'stdin'])), propC, max(20, ctx.budget // 4), batches=2, seed_salt=7)
+    if os.environ.get('VERIF_C04_NOFUZZ') != '1': lane_fuzz(ctx)
 
 def replay(case, ctx):
+    if case.get('lane') == 'D':
+        ok, detail = fuzz_replay(base64.b64decode(case['input_b64']))
+        return (True if ok is None else ok), detail
     if case.get('lane') in ('known-short-first-read', 'known-transcoding-position'):
         ex = ctx.executor('xvexec')
         doc = base64.b64decode(case['doc_b64'])
